@@ -85,6 +85,34 @@ def gen_val(rng, ids, depth=0, leaf_only=False):
     return ["d", [[k, gen_val(rng, ids, depth + 1)] for k in ks]]
 
 
+def gen_bad_key(rng, path):
+    """a malformed key (a tuple with an empty tuple or a non-str member) built around a valid path"""
+    path = tuple(path)
+    return rng.choice([(), path + ((),), path + (1,), (path, 1), (1,), path[:1] + (path[1:] + (2,),)])
+
+
+def gen_bad_op(rng, ids, state_paths):
+    """one operation handed a malformed key (model-vs-code stream only: the property says nothing about them)"""
+    p = tuple(rng.choice(state_paths)) if state_paths and rng.random() < 0.7 else gen_path(rng)
+    k = gen_bad_key(rng, p)
+    r = rng.random()
+    if r < 0.2:
+        return ["set", k, gen_val(rng, ids, leaf_only=True)]
+    if r < 0.3:
+        return ["del", k]
+    if r < 0.4:
+        return ["pop", k, rng.random() < 0.5]
+    if r < 0.55:
+        return ["rename", k, gen_spelling(rng, gen_path(rng)), False] if rng.random() < 0.5 else ["rename", gen_spelling(rng, p), k, False]
+    if r < 0.65:
+        return ["setdefault", k, gen_val(rng, ids, leaf_only=True)]
+    if r < 0.75:
+        return ["update", [[k, gen_val(rng, ids, leaf_only=True)]]]
+    if r < 0.88:
+        return ["select", [k], rng.random() < 0.5, rng.random() < 0.5]
+    return ["exclude", [k], rng.random() < 0.5]
+
+
 def gen_op(rng, ids, state_paths):
     """state_paths: list of paths (leaves and nodes) currently in the oracle state — lets ops hit existing entries"""
     def path(p_exist=0.6):
